@@ -33,16 +33,6 @@ def _(c):
     c.assume("Value.can_assign is sound for membership between static values (C04)")
 
 
-@contract("pyanalyze.value.unite_values", props=P, kind="assumed")
-def _(c):
-    c.param("values", "tuple")
-    c.returns("val")
-    c.ensures("implies(len(values) == 2, union_of(result, values[0], values[1]))", name="union")
-    c.ensures("implies(all(static(v) for v in values), static(result))", name="static")
-    c.ensures("not is_error(result)")
-    c.assume("unite_values yields a value whose members are exactly the members of the operands (C14, proved there)")
-
-
 @contract("pyanalyze.typevar.remove_redundant_solutions", props=P)
 def _(c):
     c.param("solutions", "seq")
